@@ -121,13 +121,13 @@ Section Inv.
   Qed.
 
   (* ---- one frame step that does not leave manager.run ---- *)
-  Lemma allT_step (Phi Phi' : idt -> tstate frame -> Prop) st t fr rest sg :
+  Lemma allT_step' (Phi Phi' : idt -> tstate frame -> Prop) st t fr rest sg :
     base P st (Some (t, fr :: rest, sg)) ->
     allT Phi st (Some (t, fr :: rest, sg)) ->
     leaves_run fr sg (snd (step_frame P t fr sg st)) = false ->
     wake_closed Phi ->
     (forall nm, In nm (creates P fr sg st) -> Phi (st_next st, nm, true) (TReady [spawn_frame_of P nm] SGo)) ->
-    (forall y ts, In y (st_tasks (fst (step_frame P t fr sg st))) -> t_id y <> t -> Phi (ident y) ts -> Phi' (ident y) ts) ->
+    (forall y, In y (st_tasks (fst (step_frame P t fr sg st))) -> t_id y <> t -> Phi (ident y) (t_state y) -> Phi' (ident y) (t_state y)) ->
     (forall x, In x (st_tasks (fst (step_frame P t fr sg st))) -> t_id x = t ->
                Phi' (ident x) (nstate rest (snd (step_frame P t fr sg st)))) ->
     allT Phi' (fst (after_step t rest (step_frame P t fr sg st))) (snd (after_step t rest (step_frame P t fr sg st))).
@@ -165,6 +165,21 @@ Section Inv.
       destruct (Nat.eqb (t_id y) t) eqn:E; [apply Nat.eqb_eq in E; apply (Hrun y Hy E)|apply Nat.eqb_neq in E; apply Hlift; assumption].
     - unfold allT, tasks_ok in *. rewrite Forall_forall in *. intros y Hy. specialize (H1 y Hy). unfold TPc, c0 in *. cbn [estate] in *.
       destruct (Nat.eqb (t_id y) t) eqn:E; [apply Nat.eqb_eq in E; apply (Hrun y Hy E)|apply Nat.eqb_neq in E; apply Hlift; assumption].
+  Qed.
+
+  Lemma allT_step (Phi Phi' : idt -> tstate frame -> Prop) st t fr rest sg :
+    base P st (Some (t, fr :: rest, sg)) ->
+    allT Phi st (Some (t, fr :: rest, sg)) ->
+    leaves_run fr sg (snd (step_frame P t fr sg st)) = false ->
+    wake_closed Phi ->
+    (forall nm, In nm (creates P fr sg st) -> Phi (st_next st, nm, true) (TReady [spawn_frame_of P nm] SGo)) ->
+    (forall y ts, In y (st_tasks (fst (step_frame P t fr sg st))) -> t_id y <> t -> Phi (ident y) ts -> Phi' (ident y) ts) ->
+    (forall x, In x (st_tasks (fst (step_frame P t fr sg st))) -> t_id x = t ->
+               Phi' (ident x) (nstate rest (snd (step_frame P t fr sg st)))) ->
+    allT Phi' (fst (after_step t rest (step_frame P t fr sg st))) (snd (after_step t rest (step_frame P t fr sg st))).
+  Proof.
+    intros Hb H Hlr Hw Hsp Hlift Hrun. apply (allT_step' Phi Phi'); try assumption.
+    intros y Hy Hne. apply Hlift; assumption.
   Qed.
 End Inv.
 
